@@ -497,6 +497,9 @@ func c13R3R4R5(p *Prog, r *Report) {
 						dep[k] = true
 					}
 				}
+				// a helper computing the values from what it is given: what its parameters stand
+				// for at its call sites counts too
+				c13ExpandParams(p, fn, dep, 2)
 				var missing, extra []string
 				for _, need := range analysis[f] {
 					if !dep[need] {
@@ -628,6 +631,9 @@ func c13R6(p *Prog, r *Report) {
 			if mi, ok := v.(*ssa.MakeInterface); ok {
 				v = mi.X
 			}
+			if prm, ok := v.(*ssa.Parameter); ok {
+				return strings.HasSuffix(derefType(prm.Type()).String(), "mat.VecDense")
+			}
 			a, ok := v.(*ssa.Alloc)
 			return ok && strings.HasSuffix(derefType(a.Type()).String(), "mat.VecDense")
 		}
@@ -738,6 +744,38 @@ func c13R6(p *Prog, r *Report) {
 			}
 			r.Check(bad == "", "C13.R6", FuncName(fn)+" "+f+" reads only samples "+rng, p.InstrPos(st), fmt.Sprintf("%d element reads, all over %s", nread, rng),
 				f+" is defined over samples "+rng+" of the record, but its computation contains a "+bad+": samples of the other part of the record (a spike or pile-up tail before the trigger, or the pulse itself for pre-trigger quantities) change the value")
+		}
+	}
+}
+
+// c13ExpandParams adds to dep what the parameters of fn named in it ("param:x") depend on at
+// fn's static call sites in the library (levels of callers).
+func c13ExpandParams(p *Prog, fn *ssa.Function, dep map[string]bool, levels int) {
+	if levels == 0 {
+		return
+	}
+	for i, prm := range fn.Params {
+		if !dep["param:"+prm.Name()] {
+			continue
+		}
+		for _, caller := range p.LibFuncs() {
+			var d *depCtx
+			Instrs(caller, func(in ssa.Instruction) {
+				cc := CallOf(in)
+				if cc == nil || cc.StaticCallee() != fn || i >= len(cc.Args) {
+					return
+				}
+				if d == nil {
+					d = newDepCtx(caller)
+				}
+				sub := d.closure(cc.Args[i])
+				c13ExpandParams(p, caller, sub, levels-1)
+				for k := range sub {
+					if !strings.HasPrefix(k, "param:") {
+						dep[k] = true
+					}
+				}
+			})
 		}
 	}
 }
